@@ -79,4 +79,27 @@ Proof.
   split; [reflexivity|]. split; [unfold inbox_with; destruct (p_type msg); reflexivity|].
   cbn [cache set]. unfold inbox_with. destruct (p_type msg); apply assoc_get_put_same.
 Qed.
+
+(* the same for a payload of the node's height but a later view (other than ChangeView / recovery messages, which are
+   handled at once) *)
+Theorem future_view_payload_is_kept (ic : Z -> Z -> M unit) msg s0 :
+  p_idx msg < N s0 -> p_height msg = BlockIndex s0 -> ViewNumber s0 < p_view msg ->
+  p_type msg <> ChangeViewT -> p_type msg <> RecoveryMessageT -> cache_ready s0 = true ->
+  hx s0 (OnReceive cfg ic msg) (fun _ s tr =>
+    tr = [] /\
+    let old := match assoc_get (cache s0) (p_height msg) with Some x => x | None => empty_inbox end in
+    s = s0 <| cache := assoc_put (cache s0) (p_height msg) (inbox_with old msg) |> /\
+    assoc_get (cache s) (p_height msg) = Some (inbox_with old msg)).
+Proof.
+  intros Hi Hh Hv T1 T2 Hc. unfold OnReceive, receive_common. apply x_get.
+  destruct (p_idx msg >=? N s0) eqn:E1; [rewrite Z.geb_leb in E1; apply Z.leb_le in E1; lia|].
+  destruct (p_height msg <? BlockIndex s0) eqn:E2; [apply Z.ltb_lt in E2; lia|].
+  replace (p_view msg >? ViewNumber s0) with true by (symmetry; apply Z.gtb_lt; lia).
+  replace (mtype_eqb (p_type msg) ChangeViewT) with false by (destruct (p_type msg); try reflexivity; contradiction).
+  replace (mtype_eqb (p_type msg) RecoveryMessageT) with false by (destruct (p_type msg); try reflexivity; contradiction).
+  cbn [negb andb]. rewrite orb_true_r.
+  unfold cache_addMessage. apply x_get. rewrite Hc. cbn [negb]. cbv zeta. apply x_modify_last.
+  split; [reflexivity|]. split; [unfold inbox_with; destruct (p_type msg); reflexivity|].
+  cbn [cache set]. unfold inbox_with. destruct (p_type msg); apply assoc_get_put_same.
+Qed.
 End P05.
